@@ -27,7 +27,7 @@ End Generic.
 Definition d_str : sx -> option str := d_list d_N.
 Definition d_ostr := d_opt d_str.
 
-Definition d_range (s : sx) : option range :=
+Definition d_rng (s : sx) : option range :=
   match s with
   | L [A a; A b; A c; A d; A e; A f] => Some (Rng (Pos a b c) (Pos d e f))
   | _ => None
@@ -62,16 +62,16 @@ Fixpoint d_ty (s : sx) : option ty :=
                   | [] => Some []
                   | x :: l' => do t <- d_ty x; do r <- go l'; Some (t :: r)
                   end) g;
-      do sy' <- d_range sy; do fu' <- d_range fu;
+      do sy' <- d_rng sy; do fu' <- d_rng fu;
       Some (Ty n' k' g' sy' fu')
   | _ => None
   end.
 
 Definition d_direction (s : sx) : option direction :=
   match s with
-  | L [A 0; r] => do r' <- d_range r; Some (DIn r')
-  | L [A 1; r] => do r' <- d_range r; Some (DOut r')
-  | L [A 2; r] => do r' <- d_range r; Some (DInOut r')
+  | L [A 0; r] => do r' <- d_rng r; Some (DIn r')
+  | L [A 1; r] => do r' <- d_rng r; Some (DOut r')
+  | L [A 2; r] => do r' <- d_rng r; Some (DInOut r')
   | L [A 3] => Some DUnspecified
   | _ => None
   end.
@@ -86,7 +86,7 @@ Definition d_arg (s : sx) : option arg :=
   match s with
   | L [d; n; t; an; doc; sy; fu] =>
       do d' <- d_direction d; do n' <- d_ostr n; do t' <- d_ty t; do an' <- d_annots an;
-      do doc' <- d_ostr doc; do sy' <- d_range sy; do fu' <- d_range fu;
+      do doc' <- d_ostr doc; do sy' <- d_rng sy; do fu' <- d_rng fu;
       Some (Arg d' n' t' an' doc' sy' fu')
   | _ => None
   end.
@@ -96,7 +96,7 @@ Definition d_method (s : sx) : option method :=
   | L [ow; n; rt; args; an; code; doc; sy; fu; cr; owr] =>
       do ow' <- d_bool ow; do n' <- d_str n; do rt' <- d_ty rt; do args' <- d_list d_arg args;
       do an' <- d_annots an; do code' <- d_opt d_N code; do doc' <- d_ostr doc;
-      do sy' <- d_range sy; do fu' <- d_range fu; do cr' <- d_range cr; do owr' <- d_range owr;
+      do sy' <- d_rng sy; do fu' <- d_rng fu; do cr' <- d_rng cr; do owr' <- d_rng owr;
       Some (Method ow' n' rt' args' an' code' doc' sy' fu' cr' owr')
   | _ => None
   end.
@@ -105,7 +105,7 @@ Definition d_const (s : sx) : option const :=
   match s with
   | L [n; t; v; an; doc; sy; fu] =>
       do n' <- d_str n; do t' <- d_ty t; do v' <- d_str v; do an' <- d_annots an; do doc' <- d_ostr doc;
-      do sy' <- d_range sy; do fu' <- d_range fu;
+      do sy' <- d_rng sy; do fu' <- d_rng fu;
       Some (Const n' t' v' an' doc' sy' fu')
   | _ => None
   end.
@@ -114,7 +114,7 @@ Definition d_field (s : sx) : option field :=
   match s with
   | L [n; t; v; an; doc; sy; fu] =>
       do n' <- d_str n; do t' <- d_ty t; do v' <- d_ostr v; do an' <- d_annots an; do doc' <- d_ostr doc;
-      do sy' <- d_range sy; do fu' <- d_range fu;
+      do sy' <- d_rng sy; do fu' <- d_rng fu;
       Some (Field n' t' v' an' doc' sy' fu')
   | _ => None
   end.
@@ -122,7 +122,7 @@ Definition d_field (s : sx) : option field :=
 Definition d_enum_elem (s : sx) : option enum_elem :=
   match s with
   | L [n; v; doc; sy; fu] =>
-      do n' <- d_str n; do v' <- d_ostr v; do doc' <- d_ostr doc; do sy' <- d_range sy; do fu' <- d_range fu;
+      do n' <- d_str n; do v' <- d_ostr v; do doc' <- d_ostr doc; do sy' <- d_rng sy; do fu' <- d_rng fu;
       Some (EnumElem n' v' doc' sy' fu')
   | _ => None
   end.
@@ -144,15 +144,15 @@ Definition d_item (s : sx) : option item :=
   match s with
   | L [A 0; ow; n; els; an; doc; fu; sy] =>
       do ow' <- d_bool ow; do n' <- d_str n; do els' <- d_list d_ie els; do an' <- d_annots an;
-      do doc' <- d_ostr doc; do fu' <- d_range fu; do sy' <- d_range sy;
+      do doc' <- d_ostr doc; do fu' <- d_rng fu; do sy' <- d_rng sy;
       Some (ItInterface (Interface ow' n' els' an' doc' fu' sy'))
   | L [A 1; n; els; an; doc; fu; sy] =>
       do n' <- d_str n; do els' <- d_list d_pe els; do an' <- d_annots an;
-      do doc' <- d_ostr doc; do fu' <- d_range fu; do sy' <- d_range sy;
+      do doc' <- d_ostr doc; do fu' <- d_rng fu; do sy' <- d_rng sy;
       Some (ItParcelable (Parcelable n' els' an' doc' fu' sy'))
   | L [A 2; n; els; an; doc; fu; sy] =>
       do n' <- d_str n; do els' <- d_list d_enum_elem els; do an' <- d_annots an;
-      do doc' <- d_ostr doc; do fu' <- d_range fu; do sy' <- d_range sy;
+      do doc' <- d_ostr doc; do fu' <- d_rng fu; do sy' <- d_rng sy;
       Some (ItEnum (Enum n' els' an' doc' fu' sy'))
   | _ => None
   end.
@@ -160,7 +160,7 @@ Definition d_item (s : sx) : option item :=
 Definition d_import (s : sx) : option import :=
   match s with
   | L [p; n; sy; fu] =>
-      do p' <- d_str p; do n' <- d_str n; do sy' <- d_range sy; do fu' <- d_range fu;
+      do p' <- d_str p; do n' <- d_str n; do sy' <- d_rng sy; do fu' <- d_rng fu;
       Some (Import p' n' sy' fu')
   | _ => None
   end.
@@ -168,7 +168,7 @@ Definition d_import (s : sx) : option import :=
 Definition d_aidl (s : sx) : option aidl :=
   match s with
   | L [L [pn; psy; pfu]; ims; decl; it] =>
-      do pn' <- d_str pn; do psy' <- d_range psy; do pfu' <- d_range pfu;
+      do pn' <- d_str pn; do psy' <- d_rng psy; do pfu' <- d_rng pfu;
       do ims' <- d_list d_import ims; do decl' <- d_list d_import decl; do it' <- d_item it;
       Some (Aidl (Package pn' psy' pfu') ims' decl' it')
   | _ => None
@@ -178,7 +178,7 @@ Definition d_diag (s : sx) : option diag :=
   match s with
   | L [A k; r; ctx; rel; msg] =>
       do k' <- (match k with 0 => Some DWarning | 1 => Some DError | _ => None end);
-      do r' <- d_range r; do ctx' <- d_ostr ctx; do rel' <- d_list d_range rel; do msg' <- d_str msg;
+      do r' <- d_rng r; do ctx' <- d_ostr ctx; do rel' <- d_list d_rng rel; do msg' <- d_str msg;
       Some (Diag k' r' ctx' rel' msg')
   | _ => None
   end.
